@@ -83,8 +83,8 @@ func (Prop) Describe(t vp.Tier) vp.Description {
 			"2^15+-1 for 22 templates, 2^16+-1 for 2; -race: N in {10,256,257} quick, N <= 300 plus 22 templates at 2^15+-1 thorough) plus a bisection of " +
 			"the largest N that compiles for 4 / 22 jump templates; stdlib = every function reachable from _G, package.loaded, the string/file/context/" +
 			"resources metatables and returned functions x tuples from an edge pool (exhaustive for arity <= 2 over the 36-value core pool in the quick " +
-			"tier and the 104-value pool in the thorough tier, 1e5 / 2e6 sampled tuples of arity 2-4; every 10th call under -race in the quick tier, all " +
-			"under -race and -asan in the thorough tier); reentry = 73 programs recursing without bound through every metamethod and library callback " +
+			"tier and the 104-value pool in the thorough tier, 1e5 / 2e6 sampled tuples of arity 2-4; every 10th call under -race in the quick tier; " +
+			"core-pool pairs and 5e5 sampled tuples under -race and -asan in the thorough tier); reentry = 73 programs recursing without bound through every metamethod and library callback " +
 			"under 2 (quick) / 3 (thorough) limit sets. " +
 			"A case is non-trivial when it got past the parser (compiled, or was rejected by the compiler back end) or, for a library call, " +
 			"when it was not rejected by an argument check ('bad argument'/'must be'/'value needed' errors); distinct by hash of (stage, input).",
@@ -124,7 +124,7 @@ func baseStage(stage string) (base, variant string) {
 }
 
 func (Prop) RunBatch(c *vp.Child) {
-	x := newExec(c)
+	x := newExec(c, true)
 	defer x.cleanup()
 	base, _ := baseStage(c.Stage)
 	switch base {
@@ -143,7 +143,7 @@ func (Prop) RunBatch(c *vp.Child) {
 // Replay re-runs a recorded witness: the input is Lua source (for the stdlib
 // stage a chunk "return f(args)" over the prelude of pool constructors).
 func (Prop) Replay(c *vp.Child, input string) {
-	x := newExec(c)
+	x := newExec(c, false)
 	defer x.cleanup()
 	// a crash witness is the journal "caseID\ninput": drop the id line
 	for _, p := range []string{"src ", "limit ", "call ", "reentry "} {
@@ -156,7 +156,7 @@ func (Prop) Replay(c *vp.Child, input string) {
 	defer x.closeSess(s)
 	installPrelude(x, s)
 	r := x.compileAndRun(s, "replay", input, bigLimits)
-	fmt.Printf("replay outcome: %s %s %s\n", r.kind, r.errMsg, r.panicMsg)
+	fmt.Printf("replay outcome: %s rets=[%s] %s %s\n", r.kind, abbreviate(r.rets), r.errMsg, r.panicMsg)
 	if r.kind == kPanic {
 		c.Violation("panic", "replay "+panicSig(r.panicMsg, r.stack), r.panicMsg+"\n"+r.stack, input)
 	}
@@ -193,18 +193,21 @@ func (x *exec) begin(id, input string) {
 	x.c.Begin(id, input)
 }
 
-func newExec(c *vp.Child) *exec {
+func newExec(c *vp.Child, quietStdout bool) *exec {
 	x := &exec{c: c, caseWall: 45 * time.Second}
 	_, x.variant = baseStage(c.Stage)
 	x.scratch = filepath.Join(c.WorkDir, "scratch")
 	os.MkdirAll(x.scratch, 0o755)
 	os.Chdir(x.scratch)
 	os.Setenv("TMPDIR", x.scratch)
-	// stdin is /dev/null (reads return EOF at once); what Lua programs print to
-	// the real stdout is discarded so that the log keeps only crash output
+	// stdin is /dev/null (reads return EOF at once)
 	if null, err := os.OpenFile("/dev/null", os.O_RDWR, 0); err == nil {
 		syscall.Dup3(int(null.Fd()), 0, 0)
-		syscall.Dup3(int(null.Fd()), 1, 0)
+		if quietStdout {
+			// what Lua programs print to the real stdout is discarded so that
+			// the batch log keeps only crash output
+			syscall.Dup3(int(null.Fd()), 1, 0)
+		}
 	}
 	return x
 }
